@@ -12,8 +12,12 @@ if ! git -C "$wt" apply "$patch"; then echo "patch does not apply"; git -C /repo
 # the facts file regenerated from the scratch tree must not stay behind
 facts="lean/Golib/Gen/Facts$id.lean"; bak=""
 if [ -f "$facts" ]; then bak=$(mktemp); cp "$facts" "$bak"; fi
+# … and neither must the definitions go2lean regenerated from it (wave 8)
+trans="lean/Golib/Gen/Trans$id.lean"; tbak=""
+if [ -f "$trans" ]; then tbak=$(mktemp); cp "$trans" "$tbak"; fi
 VERIF_REPO="$wt" ./check "$id" "$tier"; e=$?
 if [ -n "$bak" ]; then cmp -s "$bak" "$facts" || cp "$bak" "$facts"; rm -f "$bak"; fi
+if [ -n "$tbak" ]; then cmp -s "$tbak" "$trans" || cp "$tbak" "$trans"; rm -f "$tbak"; fi
 git -C /repo worktree remove --force "$wt"
 rm -rf go/.build/*$(printf '%s' "$wt" | cksum | cut -d' ' -f1)*
 echo "seedtest exit=$e"
